@@ -30,7 +30,7 @@ type e2eStep struct {
 	N      int
 	Commit bool
 	Max    int
-	Acks   []int // per polled record: 0 none, 1 accept, 2 release, 3 reject, 4 renew-then-accept, 5 renew only
+	Acks   []int // per polled record: 0 none, 1 accept, 2 release, 3 reject, 4 renew-then-accept, 5 renew only, 6 renew, then accept while the renew is still unanswered
 	Mark   int   // after per-record acks: 0 nothing, 1 MarkAcks(accept) for the rest, 2 MarkAcks(release)
 	Slot   int
 	Node   int
@@ -56,7 +56,7 @@ func genE2E(t *rapid.T) e2ePlan {
 		s.N = rapid.IntRange(1, 5).Draw(t, "n")
 		s.Commit = rapid.Bool().Draw(t, "commit")
 		s.Max = rapid.SampledFrom([]int{0, 2, 5}).Draw(t, "max")
-		s.Acks = rapid.SliceOfN(rapid.IntRange(0, 5), 0, 10).Draw(t, "acks")
+		s.Acks = rapid.SliceOfN(rapid.IntRange(0, 6), 0, 10).Draw(t, "acks")
 		s.Mark = rapid.IntRange(0, 2).Draw(t, "mark")
 		s.Slot = rapid.IntRange(0, p.Members-1).Draw(t, "slot")
 		s.Node = rapid.IntRange(0, p.Brokers-1).Draw(t, "node")
@@ -66,7 +66,7 @@ func genE2E(t *rapid.T) e2ePlan {
 	if rapid.Bool().Draw(t, "endunacked") {
 		// end with records delivered and left unacknowledged, so that Close has something to release
 		p.Steps = append(p.Steps, e2eStep{Kind: "produce", N: rapid.IntRange(1, 5).Draw(t, "n")},
-			e2eStep{Kind: "poll", Delay: 300 * time.Millisecond, Max: rapid.SampledFrom([]int{0, 2}).Draw(t, "max"), Acks: rapid.SliceOfN(rapid.IntRange(0, 5), 0, 3).Draw(t, "acks"), Slot: rapid.IntRange(0, p.Members-1).Draw(t, "slot")})
+			e2eStep{Kind: "poll", Delay: 300 * time.Millisecond, Max: rapid.SampledFrom([]int{0, 2}).Draw(t, "max"), Acks: rapid.SliceOfN(rapid.IntRange(0, 6), 0, 3).Draw(t, "acks"), Slot: rapid.IntRange(0, p.Members-1).Draw(t, "slot")})
 	}
 	return p
 }
@@ -102,7 +102,7 @@ func TestE2EShareAcks(t *testing.T) {
 		if os.Getenv("VERIF_DEBUG") != "" {
 			fmt.Fprintf(os.Stderr, "PLAN %+v\n", p)
 		}
-		var sawGapBelow, sawRenewThenTerminal, sawRenewThenMark, moved, sawAutoAccept, sawCloseRelease bool
+		var sawGapBelow, sawRenewThenTerminal, sawRenewThenMark, sawTerminalDuringRenew, moved, sawAutoAccept, sawCloseRelease bool
 		nearLimit := 0
 		bubble.Run(t, rt, func(e *bubble.Env) {
 			e.StartCluster(bubble.ClusterOpts{Brokers: p.Brokers, Topics: map[string]int32{"sh": p.Parts},
@@ -292,6 +292,17 @@ func TestE2EShareAcks(t *testing.T) {
 						m.pendingTerminal[id] = true
 						sawRenewThenTerminal = true
 						renewThenTerminal[e2eLoc{r.Partition, r.Offset}] = true
+					case 6:
+						// the terminal acknowledgement arrives while the renew is on the wire: the broker's
+						// answer to the next ShareAcknowledge is held for 300 ms, the accept follows 50 ms
+						// after the renew
+						e.Net.AddRuleNext(int16(kmsg.ShareAcknowledge), bubble.DelayResponse, 300*time.Millisecond)
+						r.Ack(kgo.AckRenew)
+						time.Sleep(50 * time.Millisecond)
+						r.Ack(kgo.AckAccept)
+						finalByID[id] = 1
+						m.pendingTerminal[id] = true
+						sawTerminalDuringRenew = true
 					case 5:
 						r.Ack(kgo.AckRenew)
 						m.lastRenewed = append(m.lastRenewed, e2eLoc{r.Partition, r.Offset})
@@ -475,6 +486,9 @@ func TestE2EShareAcks(t *testing.T) {
 		ev.Class("e2e")
 		if sawGapBelow {
 			ev.Class("e2e-gap-range-on-the-wire")
+		}
+		if sawTerminalDuringRenew {
+			ev.Class("e2e:terminal-ack-while-the-renew-is-unanswered")
 		}
 		if sawRenewThenMark {
 			ev.Class("e2e:renew-then-MarkAcks-at-once (outcome of that record not judged)")
